@@ -274,7 +274,7 @@ ApplyX(T, t, gfx) ==
   IF t.k \in {"sm", "rm"} /\ t.n = 4 THEN [T EXCEPT !.ntok = @ + 1] ELSE Apply(T, t, gfx)
 
 RECURSIVE Fold(_, _, _, _)
-Fold(T, toks, gfx, i) == IF i > Len(toks) THEN T ELSE Fold(ApplyX(T, toks[i], gfx), toks, gfx, i + 1)
+Fold(T, toks, gfx, i) == IF i > Len(toks) THEN T ELSE Fold(TLCEval(ApplyX(T, toks[i], gfx)), toks, gfx, i + 1)
 
 (* ----------------------------------------------------- z-index allocator *)
 
